@@ -88,6 +88,7 @@ func (m *MMap) Close() error {
 	if err := m.activeMap.Flush(); err != nil {
 		return err
 	}
+	verifIO("sync", m.file.Name(), 0)()
 	if err := m.activeMap.Unmap(); err != nil {
 		return err
 	}
